@@ -220,7 +220,9 @@ def gen_case(seed, idx, tier="quick"):
     if rng.random() < 0.35:
         prior = [make_twin(colls[0], rng)]
     return {"specs": colls, "args": args, "parse_leg": parse_leg, "hs_a": a, "hs_b": b, "faults": rng.random() < cfg["fault_p"],
-            "reader_chunk": rng.choice([1, 7, 64, 4096]), "warm": rng.random() < 0.4, "prior": prior}
+            "reader_chunk": rng.choice([1, 7, 64, 4096]), "warm": rng.random() < 0.4, "prior": prior,
+            # schedule of the importer's cooperating consumers (bcsim/coop.py); read-fault enumeration on the handle-taking reader
+            "sched_seed": rng.randrange(2 ** 31) if rng.random() < 0.5 else None, "read_faults": rng.random() < 0.5}
 
 
 # ---------------------------------------------------------------------------------------------------------------
@@ -376,6 +378,61 @@ def h_import(req):
             out["fasta_plain"] = [[r.id, str(r.seq)] for r in extract_seqrecords_from_gff3_fasta(rd2)]
         except Exception as e:
             out["fasta_error"] = type(e).__name__
+        if req.get("read_faults") and "fasta_plain" in out:
+            R = rd2.reads
+            ks = list(range(1, R + 1))
+            if R > 80:
+                ks = ks[:30] + ks[30:-30:max(1, (R - 60) // 20)] + ks[-30:]
+            rf = []
+            for k in ks:
+                rd3 = simdisk.SimReader(text, fail_at=k)
+                try:
+                    got = [[r.id, str(r.seq)] for r in extract_seqrecords_from_gff3_fasta(rd3)]
+                    outcome = "returned_full" if got == out["fasta_plain"] else "returned_wrong"
+                except OSError:
+                    outcome = "oserror" if rd3.fired else "other_oserror"
+                except Exception as e:
+                    outcome = "raise:" + type(e).__name__
+                rf.append({"k": k, "outcome": outcome, "fired": rd3.fired})
+            out["read_faults"] = rf
+    if req.get("sched_seed") is not None:
+        # several consumers of this importer step their (lazy) parsers in a seed-chosen interleaving; one of them may be
+        # reading the other file and walk away in the middle of it
+        from bcsim import coop
+
+        srng = _r.Random(req["sched_seed"])
+        pf = parse_gff3_embedded_fasta if req["fasta"] else parse_standard_gff3
+        paths = []
+        makers = []
+        for i in range(srng.choice([2, 3])):
+            pth = simdisk.materialise(text, suffix=".gff3")
+            paths.append(pth)
+            makers.append((f"own#{i}", (lambda pth=pth: pf(pth))))
+        abandon = {}
+        if req.get("prior_text"):
+            pth = simdisk.materialise(req["prior_text"], suffix=".gff3")
+            paths.append(pth)
+            makers.append(("prior", lambda pth=pth: pf(pth)))
+            abandon["prior"] = srng.choice([0, 1, 1, 99])
+        try:
+            res, schedule = coop.run_tasks(makers, srng, abandon)
+        finally:
+            for pth in paths:
+                os.unlink(pth)
+        sched = {}
+        for lb, r in res.items():
+            if lb == "prior":
+                continue
+            if r["error"]:
+                sched[lb] = {"error": r["error"].split(":")[0]}
+                continue
+            try:
+                sched[lb] = [_model_summary(c) for c in ParsedAnnotationRecord.parsed_annotation_records_to_model(r["items"])]
+            except Exception as e:
+                sched[lb] = {"error": type(e).__name__}
+        out["sched"] = sched
+        out["schedule"] = schedule
+        out["sched_abandoned"] = bool(res.get("prior", {}).get("abandoned"))
     w = simdisk.SimWriter()
     try:
         _export(colls, dict(req["args"], chromosome_relative_coordinates=True), w)
@@ -1017,7 +1074,23 @@ def run_case(case):
     stats["episodes_with_identical_content_twins(parse leg skipped)"] += int(twins and case["parse_leg"])
     if case["parse_leg"] and not twins:
         imp = nd.call(case["hs_b"], {"op": "c11.import", "text": t1, "fasta": case["args"]["add_sequences"], "args": case["args"],
-                                     "reader_chunk": case["reader_chunk"], "reader_seed": 7, "prior_text": a.get("prior_text")})
+                                     "reader_chunk": case["reader_chunk"], "reader_seed": 7, "prior_text": a.get("prior_text"),
+                                     "sched_seed": case.get("sched_seed"), "read_faults": case.get("read_faults")})
+        if "sched" in imp and "models" in imp:
+            stats["sched_episodes"] += 1
+            stats["sched_steps"] += len(imp["schedule"])
+            stats["sched_switches"] += sum(1 for x, y in zip(imp["schedule"], imp["schedule"][1:]) if x != y)
+            stats["sched_abandoned_consumer"] += int(imp.get("sched_abandoned", False))
+            for lb, got in imp["sched"].items():
+                if got != imp["models"]:
+                    fs.append({"inv": "interleaving", "what": "parse_depends_on_other_consumers", "detail": json.dumps(imp["schedule"])[:200]})
+        if "read_faults" in imp:
+            stats["read_fault_files"] += 1
+            for rec in imp["read_faults"]:
+                stats["read_faults_fired"] += int(rec["fired"])
+                stats["read_fault_" + rec["outcome"].split(":")[0]] += 1
+                if rec["outcome"] == "returned_wrong":
+                    fs.append({"inv": "read_fault", "what": "returned_other_result_after_read_error", "detail": f"k={rec['k']}"})
         stats["stale_importer(parsed another file first)"] += int(bool(imp.get("prior_parsed")))
         stats["parse_legs"] += 1
         stats["fasta_reader_runs"] += int("fasta_plain" in imp)
@@ -1235,7 +1308,8 @@ def evidence(agg, tier, seed, wall, batches):
         "distinct_nontrivial": len(agg["nontrivial"]),
         "rule": "one evaluation = one export/import episode: node A exports 1-2 generated collections through a SimDisk handle (and again on warm "
                 "objects); node B with another hash seed exports the same content, parses A's bytes (materialised for gffutils), reads the "
-                "FASTA section through a short-reading SimDisk reader, and re-exports; in ~12% of episodes the disk fails at EVERY write index. "
+                "FASTA section through a short-reading SimDisk reader, and re-exports; in ~12% of episodes the disk fails at EVERY write index, in ~24% of FASTA parse legs at every read index (must raise or return everything); "
+                "in half of the parse legs 2-4 lazy parser generators are stepped by a seeded cooperative scheduler (each must return what it returns alone). "
                 "distinct = sha256 of the case; non-trivial = the export produced a file that was read by the independent reader.",
         "samples": [sample],
         "simulated_runs_per_hour": round(rph), "seeds_per_hour": round(rph),
@@ -1247,6 +1321,11 @@ def evidence(agg, tier, seed, wall, batches):
             "hashseed(importer differs)": st["hashseed_differs"],
             "stale_exporter(exported a strain twin earlier in the same process)": st["stale_exporter(exported a strain twin first)"],
             "stale_importer(parsed another file earlier in the same process)": st["stale_importer(parsed another file first)"],
+            "interleaved_consumers(episodes where 2-4 lazy parsers were stepped by the seeded scheduler)": st["sched_episodes"],
+            "scheduler_steps": st["sched_steps"], "scheduler_task_switches": st["sched_switches"],
+            "abandoned_consumer(a parser closed in the middle of another file)": st["sched_abandoned_consumer"],
+            "read_fault(k) on the handle-taking FASTA reader": st["read_faults_fired"], "files_with_read_fault_enumeration": st["read_fault_files"],
+            "read_fault_outcomes": {k[11:]: v for k, v in st.items() if k.startswith("read_fault_") and k[11:] in ("oserror", "returned_full", "returned_wrong", "raise", "other_oserror")},
         },
         "reach_probes": {
             "rows_checked_by_independent_reader": st["rows_checked"], "parse_legs": st["parse_legs"], "reexports": st["reexports"],
